@@ -246,6 +246,22 @@ def run_stream(chk, prefix, replay=None):
         if sig in seen:
             continue
         seen.add(sig)
+        # Socket-level observations depend on time (hang detectors, TLS handshakes): a violating
+        # behaviour is replayed once more on its own and reported only if the same clause fails
+        # again.  (Not when the run itself is a replay of a stored violation file.)
+        if not replay:
+            n = len(seen)
+            if n > 24:
+                break       # (enough candidates examined)
+            cb, ct = chk.path(f"confirm-{n}.behaviour.ndjson"), chk.path(f"confirm-{n}.trace.ndjson")
+            vf.write_ndjson(cb, [b])
+            vf.qxv("stream", ct, in_path=cb, seed=chk.seed, tier=chk.tier, check=False, timeout=300)
+            vf.repair_truncated(ct)
+            s2 = vf.tlc_trace("ClientStreamTrace.tla", "ClientStreamTrace.cfg", ct, tag=f"ClientStreamTrace-{prefix}-confirm")
+            if not any(w["prop"] == v["prop"] for w in s2["viol"]):
+                chk.cov["alarms_not_reproduced"] = chk.cov.get("alarms_not_reproduced", 0) + 1
+                chk.note(f"{v['prop']} on {hist}: not reproduced when replayed alone, not reported")
+                continue
         clean = [{k: x for k, x in e.items() if k != "_l"} for e in lines]
         chk.violation(sig, f"{v['prop']} at event {v['e']} of behaviour {hist}", [b] + clean)
         if len(chk.violations) >= 8:
